@@ -114,6 +114,9 @@ def check(ctx: Ctx) -> None:
     for l in ctx.distinct_sites(ls):
         rep.ob("R19.4", "a session listens only after its handshake completed", bool(hs) and dominated_by_completion(g, hs, l), node=l)
     rep.floor("R19.4", "session.listen() in the connection callback", len(ls), 1)
+    # a client connecting or disconnecting affects no other session: per-connection objects stay in the callback's locals
+    from . import control as CT
+    CT.r_session_local(ctx, "R19.9")
     # ---------------------------------------------------------------- R19.5
     rep.rule("R19.5", "ControlSession.listen re-tests is_serving() before every read and leaves its loop on EOF / an empty line")
     f = sess.methods.get("listen")
